@@ -92,10 +92,12 @@ class C12Observer(SP.Observer):
                 role = "current-at-shutdown"
             elif c.opened_at > snap["t"]:
                 role = "opened-after-shutdown"
-            elif c.factory_returned_at is None or c.factory_returned_at >= snap["t"] - 1e-3:
-                role = "connecting-at-shutdown"      # connection_factory had not returned when shutdown began
+            elif c not in snap["installed_before"]:
+                role = "connecting-at-shutdown"      # not yet installed in the pool when shutdown began
             else:
                 role = "set-aside-before-shutdown"    # established earlier, no longer referenced by the pool
+                if not any(conn is c for (_p, conn, _t) in m.replace_args) and hasattr(p, "_is_replacing"):
+                    role += "+dropped-without-_replace"
             ctx.fail(["C12.final.open", type(p).__name__, role],
                      "after Session/Cluster shutdown and quiescence connection #%d (opened at t=%.3f by %s, in_flight=%d, "
                      "orphans=%r) of %s is still open; pool shut down at %s by %s; role: %s" % (
@@ -146,7 +148,7 @@ def _run(case, ctx, sim):
     if any(s["trash"] for s in m.shutdowns.values()):
         ctx.label("has:trash-at-shutdown")
     if any(c.opened_at <= s["t"] and m.pool_of(c) is s["pool"] and
-           (c.factory_returned_at is None or c.factory_returned_at >= s["t"] - 1e-3) and
+           c not in s["installed_before"] and
            not (c.is_closed and getattr(c, "close_snapshot", None) is None)
            for s in m.shutdowns.values() for c in conns):
         ctx.label("has:connect-in-progress-at-shutdown")
